@@ -175,6 +175,7 @@ func parseRaceLog(text string) []raceReport {
 		}
 		lines := strings.Split(blk, "\n")
 		var sites [][2]string
+		var tops []string // innermost frame of each access
 		inAccess := false
 		for i := 0; i < len(lines); i++ {
 			l := lines[i]
@@ -182,6 +183,7 @@ func parseRaceLog(text string) []raceReport {
 				strings.HasPrefix(l, "Atomic") || strings.HasPrefix(l, "Previous atomic") {
 				inAccess = true
 				sites = append(sites, [2]string{"", ""})
+				tops = append(tops, "")
 				continue
 			}
 			if strings.HasPrefix(l, "Goroutine") || strings.HasPrefix(l, "Mutex") {
@@ -191,6 +193,9 @@ func parseRaceLog(text string) []raceReport {
 				continue
 			}
 			fn := strings.TrimSpace(l)
+			if tops[len(tops)-1] == "" && fn != "" && !strings.HasPrefix(fn, "/") {
+				tops[len(tops)-1] = fn
+			}
 			if strings.HasPrefix(fn, "github.com/ryogrid/SamehadaDB/lib/") && !strings.Contains(fn, "verifshim") && i+1 < len(lines) {
 				if j := strings.LastIndex(fn, "("); j > 0 {
 					fn = fn[:j]
@@ -207,6 +212,14 @@ func parseRaceLog(text string) []raceReport {
 		}
 		if len(sites) >= 2 {
 			r := raceReport{a: sites[0][0], fa: sites[0][1], b: sites[1][0], fb: sites[1][1], text: blk}
+			// an access without a library frame: an atomic operation of library code that was inlined into
+			// its caller (the other access decides the scope) - anything else is the harness' own access
+			if r.a == "" && strings.HasPrefix(tops[0], "sync/atomic.") {
+				r.a = "(inlined atomic)"
+			}
+			if r.b == "" && strings.HasPrefix(tops[1], "sync/atomic.") {
+				r.b = "(inlined atomic)"
+			}
 			if r.a > r.b {
 				r.a, r.b, r.fa, r.fb = r.b, r.a, r.fb, r.fa
 			}
@@ -268,7 +281,11 @@ func c19Run(c *core.Ctx) {
 					continue
 				}
 				seen[sig] = true
-				if c19InScope(r.fa) && c19InScope(r.fb) {
+				// (an access whose library frame was inlined away - e.g. sync/atomic called directly from a small
+				// function - has no site of its own: the other access decides)
+				okA := c19InScope(r.fa) || r.a == "(inlined atomic)"
+				okB := c19InScope(r.fb) || r.b == "(inlined atomic)"
+				if okA && okB && (r.fa != "" || r.fb != "") {
 					res.Outcome("data-path-race:" + r.a + "<>" + r.b)
 					res.Violate(&core.Violation{Property: "C19", Signature: strings.ReplaceAll(sig, " ", ""),
 						Detail: fmt.Sprintf("unsynchronised accesses in %s (%s) and %s (%s)\nscenario %s, schedule %v\n%s", r.a, r.fa, r.b, r.fb, scName, choices, firstN(r.text, 1800)),
